@@ -308,6 +308,9 @@ def gen_history(draw, tier="quick"):
             op["with_pos"] = draw(st.booleans())
         elif k in ("gen_same", "gen_nan", "gen_other_store"):
             op["with_pos"] = draw(st.booleans())
+            if k != "gen_other_store":
+                # the realisation is returned only / only part of the intermediate fields is kept on the object
+                op["store"] = draw(st.sampled_from([None, None, "off", "no_raw_krige", "no_raw_field"]))
             if k == "gen_other_store":
                 op["which"] = draw(st.sampled_from(["both", "store", "krige_store"]))
         elif k == "krige_direct":
@@ -330,6 +333,12 @@ def gen_history(draw, tier="quick"):
                 keep_ax = draw(st.integers(0, dim - 1))
                 op["shift"] = [v if i == keep_ax else 0.0 for i, v in enumerate(op["shift"])]
         ops.append(op)
+    if draw(st.integers(0, 3)) == 0:
+        # motif: an ensemble loop that keeps nothing on the object, right after new data at unchanged target positions
+        ops.append({"op": "gen_nan", "with_pos": False})
+        ops.append({"op": "new_values", "vals": draw(st.lists(st.floats(lo, hi), min_size=ncond, max_size=ncond))})
+        ops.append({"op": "gen_nan", "with_pos": False, "store": draw(st.sampled_from(["off", "no_raw_krige"]))})
+        ops.append({"op": "gen_seed", "with_pos": False, "seed": draw(st.integers(0, 2**31 - 1))})
     ops.append({"op": "gen_nan", "with_pos": False})
     case["ops"] = ops
     return case
@@ -383,6 +392,9 @@ def check_history(case, rec):
                             kw["store"] = ["f2", "r2", "k2"]
                         if op.get("which", "both") in ("both", "krige_store"):
                             kw["krige_store"] = ["kf2", "kv2"]
+                    if op.get("store") and "store" not in kw:
+                        kw["store"] = {"off": False, "no_raw_krige": [True, True, False], "no_raw_field": [True, False, True]}[op["store"]]
+                        rec.label("store_" + op["store"])
                     if op.get("with_pos") or not pos_set:
                         f = cs(caller_pos, **kw, **call_kwargs(cfg, caller_pos))
                         pos_set = True
